@@ -32,20 +32,7 @@ BUDGET = {
 
 @st.composite
 def _file(draw):
-    spec = draw(c01._layout())
-    D = draw(st.integers(1, 4))
-    N = draw(st.integers(3, 8))
-    # shrink the C01 layout to a small file
-    spec['widths'] = (spec['widths'] * 4)[:D]
-    spec['ranges'] = (spec['ranges'] * 4)[:D]
-    if spec['datatype'] == 'I':
-        spec['widths'] = [min(w, 32) for w in spec['widths']]
-        spec['ranges'] = [min(R, 1 << w) for R, w in zip(spec['ranges'], spec['widths'])]
-        spec['events'] = [[draw(st.integers(0, (1 << w) - 1)) for w in spec['widths']] for _ in range(N)]
-    else:
-        w = spec['widths'][0]
-        cell = st.integers(0, 2 ** w - 1).filter(c01._not_nan32 if w == 32 else c01._not_nan64)
-        spec['events'] = [[draw(cell) for _ in range(D)] for _ in range(N)]
+    spec = draw(c01._layout(d_strategy=st.integers(1, 4), n_strategy=st.integers(3, 8), widths_pool=[8, 16, 24, 32]))
     spec['pad'] = [draw(st.integers(0, 6)), draw(st.integers(0, 9)), draw(st.integers(0, 6))]
     spec['trail'] = draw(st.integers(0, 3))
     # no ANALYSIS segment: the reader documents that an unparseable ANALYSIS segment is replaced by an empty
